@@ -306,7 +306,9 @@ class RCUUtilizationContext(AbstractContext, PipelineContextTool):
             else:
                 return "NotAvailable"
         else:
-            return "Total"
+            # a kernel row without category suffix: "Total" is the name of the summary row and
+            # would be counted twice by accumulate_categories
+            return "NotAvailable"
 
     def _add_kernel(self,
                     kernel_and_cat: list[str],
